@@ -10,8 +10,8 @@ import numpy as np
 
 from vf import common
 
-OPS = ['reshuffle', 'local', 'onetime', 'apply', 'map', 'slice', 'batch', 'concat', 'filter']
-RANDOM = {'reshuffle', 'local', 'onetime', 'apply'}
+OPS = ['reshuffle', 'local', 'onetime', 'apply', 'apply_reshuffle', 'map', 'slice', 'batch', 'concat', 'filter', 'catch']
+RANDOM = {'reshuffle', 'local', 'onetime', 'apply', 'apply_reshuffle'}
 EPOCHS = 3
 
 
@@ -27,6 +27,16 @@ class ApplyShuffle:
             self.permutation = np.arange(len(ds))
         self.rng.shuffle(self.permutation)
         return ds[self.permutation]
+
+
+class ApplyReshuffle:
+    """A lazily applied function that returns a dataset which is itself still random."""
+
+    def __init__(self, rng):
+        self.rng = rng
+
+    def __call__(self, ds):
+        return ds.shuffle(True, rng=self.rng)
 
 
 def add1(x):
@@ -56,6 +66,10 @@ def build(prog, seed, kind, n=5):
                 ds = ds.shuffle(False, rng=rng)
             elif op == 'apply':
                 ds = ds.apply(ApplyShuffle(rng), lazy=True)
+            elif op == 'apply_reshuffle':
+                ds = ds.apply(ApplyReshuffle(rng), lazy=True)
+            elif op == 'catch':
+                ds = ds.catch()
             elif op == 'map':
                 ds = ds.map(add1)
             elif op == 'slice':
@@ -126,7 +140,7 @@ def check_program(args):
                 st['transitions'] += EPOCHS
                 if ec != ea:
                     last_random = [op for op in prog if op in RANDOM][-1]
-                    shared = 'reshuffle' in prog and 'concat' in prog[list(prog).index('reshuffle'):]
+                    shared = any(r in prog and 'concat' in prog[list(prog).index(r):] for r in ('reshuffle', 'apply_reshuffle'))
                     bad('copy-differs/reshuffle-object-shared-by-two-branches' if shared else
                         f'copy-differs/{last_random}' if len([op for op in prog if op in RANDOM]) == 1 else 'copy-differs',
                         f'copy() of a fresh build gives {ec}, the build gives {ea}', seed=seed, kind=kind)
@@ -147,7 +161,7 @@ def check_program(args):
                 if ep != ea:
                     bad(f'prefetch-differs/w{w}', f'behind prefetch({w},{b}): {ep}, plain: {ea}', seed=seed, kind=kind)
             # frozen / ordered clauses
-            reshuffles = any(op in ('reshuffle', 'local', 'apply') for op in prog)
+            reshuffles = any(op in ('reshuffle', 'local', 'apply', 'apply_reshuffle') for op in prog)
             try:
                 ordered = a.ordered
             except Exception:       # noqa: BLE001
